@@ -220,6 +220,17 @@ def weave_fn(text, spec, unit_name):
         if prev and prev[-1] not in '{};)':
             continue
         loops.append(p)
+    # loops inside a span that R4 outlines away do not take an invariant
+    skip_spans = []
+    for ol in spec.get('outline', []):
+        if text.count(ol['expr']) == 1:
+            s0 = text.index(ol['expr'])
+            if ol.get('through_matching_brace'):
+                ob0 = m.index('{', s0 + len(ol['expr']) - 1) if '{' not in ol['expr'] else s0 + ol['expr'].rindex('{')
+                skip_spans.append((s0, rustlex.match_brace(m, ob0) + 1))
+            else:
+                skip_spans.append((s0, s0 + len(ol['expr'])))
+    loops = [p for p in loops if not any(a <= p < b for a, b in skip_spans)]
     for i, lp in enumerate(spec.get('loop', [])):
         if i >= len(loops):
             raise AnchorLost(f'{spec["name"]}: loop #{i} not found')
